@@ -252,6 +252,23 @@ fn effective(ks: &fjall::Keyspace) -> Result<String, String> {
 
 struct Failure { kind: &'static str, detail: String }
 
+/// stored witness of known finding F17 (C16): a level-ratio vector longer than 255 entries
+fn witness_f17() -> Option<String> {
+    let scratch = Scratch::new("f17");
+    let dir = scratch.join("db");
+    let ratios = |ks: &fjall::Keyspace| -> Option<Vec<u8>> { ks.config.compaction_strategy.get_config().iter().find(|(k, _)| &**k == b"leveled_level_ratio_policy").map(|(_, v)| v.to_vec()) };
+    let before;
+    {
+        let db = Database::builder(&dir).worker_threads_unchecked(0).open().ok()?;
+        let ks = db.keyspace("w", || KeyspaceCreateOptions::default().compaction_strategy(Arc::new(fjall::compaction::Leveled::default().with_level_ratio_policy(vec![2.0; 300])))).ok()?;
+        before = ratios(&ks)?;
+    }
+    let db = Database::builder(&dir).worker_threads_unchecked(0).open().ok()?;
+    let ks = db.keyspace("w", KeyspaceCreateOptions::default).ok()?;
+    let after = ratios(&ks)?;
+    if before != after { Some(format!("a keyspace created with 300 level ratios has {} after reopen (stored form: {} bytes at creation, {} after reopen)", (after.len().saturating_sub(1)) / 4, before.len(), after.len())) } else { None }
+}
+
 fn run_case(seed: u64, lean: &mut Lean, samples: &mut Vec<J>, hist: &mut std::collections::BTreeMap<String, u64>) -> (Vec<Failure>, bool, u64) {
     let mut fails = vec![];
     let mut r = Rng::new(seed);
@@ -364,7 +381,8 @@ fn main() {
     res.set("model_requests", J::i(lean.requests as i64));
     res.set("samples", J::Arr(samples));
     res.set("wall_s", J::Num(t0.elapsed().as_secs_f64()));
-    res.set("failures", J::Arr(all.iter().map(|(cs, f)| { let mut o = J::obj(); o.set("case_seed", J::s(cs.to_string())); o.set("kind", J::s(f.kind)); o.set("detail", J::s(f.detail.clone())); o }).collect()));
+    let w17 = if replay.is_none() { witness_f17() } else { None };
+    res.set("failures", J::Arr(all.iter().map(|(cs, f)| { let mut o = J::obj(); o.set("case_seed", J::s(cs.to_string())); o.set("kind", J::s(f.kind)); o.set("detail", J::s(f.detail.clone())); o }).chain(w17.iter().map(|d| { let mut o = J::obj(); o.set("case_seed", J::s("0".to_string())); o.set("kind", J::s("impl-vs-oracle")); o.set("detail", J::s(d.clone())); o.set("witness_id", J::s("F17".to_string())); o })).collect()));
     println!("RESULT {}", res.render());
     std::process::exit(if all.is_empty() { 0 } else { 1 });
 }
